@@ -42,6 +42,13 @@ def warm():
     iosim.warm(measure_cpu=False)
 
 
+def classify_harness(rec, payload):
+    """a run that had to be killed (CPU budget / wall cap) says nothing about the interface contract: termination is C01's property"""
+    if rec.get("_harness") == "timeout" or (rec.get("_harness") == "crash" and rec.get("signal") in (9, 24)):
+        return {"ignore": True, "reason": "killed_by_budget_termination_is_C01"}
+    return None
+
+
 def gen_case(rng: random.Random, tier: str) -> dict:
     c = iosim.gen_case(rng, tier, fault_free_p=0.3, s2_bias=0.65, entries=["direct", "direct", "read_file", "archive_zip", "attachment"])
     if rng.random() < 0.75:
@@ -295,7 +302,7 @@ def run_case(case: dict) -> dict:
     viol, probes = [], {}
     sbx = os.path.join(K.sandbox_root(), f"c04-{os.getpid()}")
     os.makedirs(sbx, exist_ok=True)
-    iosim.arm_budgets(120, 4 << 30)
+    iosim.arm_budgets(40, 4 << 30)
     fs = K.FuncSet((K.PKG + os.sep,))
     fs.start()
     try:
